@@ -48,6 +48,7 @@ use serde::Serialize;
 use serde_json::json;
 use std::collections::{BTreeMap, BTreeSet, HashSet};
 use std::panic::{AssertUnwindSafe, catch_unwind};
+use std::rc::Rc;
 use std::time::Instant;
 use vm_api::VM;
 use vm_api::trace::InvocationTrace;
@@ -88,6 +89,8 @@ struct Miner {
     claim_nonzero: bool,
     claim_changes: u64,
     claim_last: Option<BigInt>,
+    /// (state head, scan of that head) of the last problem-free scan
+    cache: Option<(cid::Cid, Rc<Snap>)>,
 }
 
 #[derive(Clone, Default)]
@@ -118,8 +121,8 @@ struct Snap {
     /// pre-committed, not yet proven: sector number → pre-commit epoch
     precommits: BTreeMap<u64, ChainEpoch>,
     posted: BTreeMap<u64, BTreeSet<u64>>,
-    claim: Option<Pw>,
     active: Pw,
+    breakdown: String,
 }
 
 struct Prob {
@@ -144,6 +147,7 @@ struct Ctx<'a> {
     lines: Vec<String>,
     ticks: u64,
     oracle_runs: u64,
+    scans: u64,
     f1_as_violation: bool,
 }
 
@@ -309,13 +313,15 @@ impl<'a> Ctx<'a> {
                     format!("miner {} cron callback aborted at epoch {} because UpdatePledgeTotal would make total_pledge_collateral negative; power actor deleted the claim while the miner still has active sectors", maddr, epoch),
                 ];
                 let path = write_replay("C02", &format!("actor-knownF1-{}-{}", self.cfg.seed, self.seq), &hdr, &self.lines);
-                note(
-                    self.rep,
-                    format!(
-                        "known F1 consequence seen: a miner's deadline cron aborted on UpdatePledgeTotal (negative total pledge) and the power actor deleted its claim although it had active sectors; first witness {}",
-                        path
-                    ),
-                );
+                if !self.rep.notes.iter().any(|n| n.starts_with("known F1 consequence")) {
+                    note(
+                        self.rep,
+                        format!(
+                            "known F1 consequence (uncompensated sequences only; count in branch_hist.known-F1-cron-abort-claim-deleted): a miner's deadline cron aborted on UpdatePledgeTotal (negative total pledge) and the power actor deleted its claim although it had active sectors; first witness {}",
+                            path
+                        ),
+                    );
+                }
                 return Err(Stop::Known);
             }
             let what = format!("cron tick @{}", epoch);
@@ -356,19 +362,61 @@ impl<'a> Ctx<'a> {
     }
 
     /// The oracle.  Reads raw state only.
-    fn check(&mut self, w: &World, what: &str) -> Result<Vec<Snap>, Stop> {
+    fn check(&mut self, w: &World, what: &str) -> Result<Vec<Rc<Snap>>, Stop> {
         self.oracle_runs += 1;
         let mut probs: Vec<Prob> = vec![];
-        let mut snaps = vec![];
+        let mut snaps: Vec<Rc<Snap>> = vec![];
+        let store = w.vm.store.as_ref();
+        let pst: PowerState = vm_api::util::get_state(&w.vm, &STORAGE_POWER_ACTOR_ADDR).unwrap();
+        let mut claims: Vec<Option<Pw>> = vec![];
         for mi in 0..self.miners.len() {
-            let s = scan_miner(w, &self.policy, &mut self.miners[mi], &mut probs);
+            // the miner's state is content addressed: an unchanged head that was scanned without
+            // problems need not be scanned again
+            let head = w.vm.actor(&self.miners[mi].id).map(|a| a.state);
+            let cached = match (&self.miners[mi].cache, &head) {
+                (Some((c, s)), Some(h)) if c == h => Some(s.clone()),
+                _ => None,
+            };
+            let s = match cached {
+                Some(s) => s,
+                None => {
+                    let before = probs.len();
+                    let s = Rc::new(scan_miner(w, &self.policy, &mut self.miners[mi], &mut probs));
+                    self.scans += 1;
+                    self.miners[mi].cache = if probs.len() == before { head.map(|h| (h, s.clone())) } else { None };
+                    s
+                }
+            };
+            // C02, per miner: the claim against the recomputed active power
+            let id = self.miners[mi].id;
+            let claim: Option<Pw> = pst.get_claim(store, &id).ok().flatten().map(|c| (c.raw_byte_power, c.quality_adj_power));
+            match &claim {
+                None => probs.push(Prob {
+                    prop: "C02",
+                    kind: "claim-missing".into(),
+                    detail: format!("miner {}: no claim in the power actor; active power raw={} qa={}", id, s.active.0, s.active.1),
+                }),
+                Some(c) => {
+                    if *c != s.active {
+                        probs.push(Prob {
+                            prop: "C02",
+                            kind: "claim-ne-active-power".into(),
+                            detail: format!(
+                                "miner {}: claim raw={} qa={} but Σ over proven, non-faulty, non-terminated sectors raw={} qa={}; {}",
+                                id, c.0, c.1, s.active.0, s.active.1, s.breakdown
+                            ),
+                        });
+                    }
+                }
+            }
+            claims.push(claim);
             snaps.push(s);
         }
         check_network(w, &self.miners, &mut probs);
         // history for the non-triviality rule
-        for (mi, s) in snaps.iter().enumerate() {
+        for (mi, c) in claims.iter().enumerate() {
             let m = &mut self.miners[mi];
-            let raw = s.claim.as_ref().map(|c| c.0.clone()).unwrap_or_default();
+            let raw = c.as_ref().map(|c| c.0.clone()).unwrap_or_default();
             if !raw.is_zero() {
                 m.claim_nonzero = true;
             }
@@ -742,21 +790,7 @@ fn scan_miner(w: &World, policy: &Policy, m: &mut Miner, probs: &mut Vec<Prob>) 
         }
         _ => bad!("C04", "allocated-unreadable", "bitfield"),
     }
-    // C02: the claim
-    let pst: PowerState = vm_api::util::get_state(&w.vm, &STORAGE_POWER_ACTOR_ADDR).unwrap();
-    snap.claim = pst.get_claim(store, &m.id).ok().flatten().map(|c| (c.raw_byte_power, c.quality_adj_power));
-    match &snap.claim {
-        None => bad!("C02", "claim-missing", "no claim in the power actor; active power raw={} qa={}", snap.active.0, snap.active.1),
-        Some(c) => {
-            if *c != snap.active {
-                bad!(
-                    "C02", "claim-ne-active-power",
-                    "claim raw={} qa={} but Σ over proven, non-faulty, non-terminated sectors raw={} qa={}; {}",
-                    c.0, c.1, snap.active.0, snap.active.1, breakdown.join(" | ")
-                );
-            }
-        }
-    }
+    snap.breakdown = breakdown.join(" | ");
     snap
 }
 
@@ -865,6 +899,86 @@ fn next_open_of(policy: &Policy, pps: ChainEpoch, dl: u64, epoch: ChainEpoch) ->
     new_deadline_info_from_offset_and_epoch(policy, pps, start.max(epoch))
 }
 
+/// One stretch of time in which every partition holding provable sectors is proven in its window
+/// (of every miner); with `heal`, faults are declared recovered as soon as their deadline allows.
+fn post_period(ctx: &mut Ctx, w: &World, end: ChainEpoch, heal: bool) -> Result<(), Stop> {
+    let policy = ctx.policy.clone();
+    let (mut sent, mut okc) = (0, 0);
+    loop {
+        let now = w.vm.epoch();
+        if now >= end {
+            break;
+        }
+        let mut cur = ctx.check(&w, "post-period")?;
+        if heal {
+            let mut declared = false;
+            for j in 0..cur.len() {
+                let ps = new_deadline_info_from_offset_and_epoch(&policy, cur[j].pps, now).period_start;
+                let decls: Vec<RecoveryDeclaration> = cur[j]
+                    .parts
+                    .iter()
+                    .filter(|q| q.faults.iter().any(|n| !q.recoveries.contains(n)) && deadline_is_mutable(&policy, ps, q.dl, now))
+                    .map(|q| RecoveryDeclaration { deadline: q.dl, partition: q.idx, sectors: bf(&q.faults.iter().filter(|n| !q.recoveries.contains(n)).copied().collect::<Vec<_>>()) })
+                    .collect();
+                if !decls.is_empty() {
+                    let (jid, jowner) = (ctx.miners[j].id, ctx.miners[j].owner);
+                    let desc: Vec<String> = decls.iter().map(|d| format!("dl{}/p{}", d.deadline, d.partition)).collect();
+                    let (a, _) = ctx.send(&w, "declare-recovered", &jowner, &jid, &TokenAmount::zero(), MinerMethod::DeclareFaultsRecovered as u64, Some(DeclareFaultsRecoveredParams { recoveries: decls }))?;
+                    ctx.lines.push(format!("   recover m{} {} @{} -> {}", j, desc.join(","), now, outcome(&a)));
+                    declared = true;
+                }
+            }
+            if declared {
+                cur = ctx.check(&w, "post-period recovery declaration")?;
+            }
+        }
+        // the next deadline (of any miner) holding sectors a PoSt can prove
+        let mut best: Option<(ChainEpoch, usize, u64, u64, DeadlineInfo)> = None;
+        for (j, sj) in cur.iter().enumerate() {
+            for q in sj.parts.iter().filter(|q| q.live().iter().any(|n| !q.faults.contains(n) || q.recoveries.contains(n))) {
+                let mut inf = next_open_of(&policy, sj.pps, q.dl, now);
+                if inf.open <= now && sj.posted.get(&q.dl).map(|b| b.contains(&q.idx)).unwrap_or(false) {
+                    inf = new_deadline_info_from_offset_and_epoch(&policy, sj.pps, inf.open + policy.wpost_proving_period);
+                }
+                let at = inf.open.max(now);
+                if best.as_ref().map(|b| at < b.0).unwrap_or(true) {
+                    best = Some((at, j, q.dl, q.idx, inf));
+                }
+            }
+        }
+        match best {
+            Some((at, j, dl, pidx, _)) if at < end => {
+                ctx.advance(&w, at)?;
+                let now_info = ctx.dline(&w, j, w.vm.epoch());
+                let (jid, jowner, jpost) = (ctx.miners[j].id, ctx.miners[j].owner, ctx.miners[j].post);
+                let params = SubmitWindowedPoStParams {
+                    deadline: dl,
+                    partitions: vec![PoStPartition { index: pidx, skipped: BitField::new() }],
+                    proofs: vec![PoStProof { post_proof: jpost, proof_bytes: vec![] }],
+                    chain_commit_epoch: now_info.challenge,
+                    chain_commit_rand: Randomness(TEST_VM_RAND_ARRAY.into()),
+                };
+                let (a, _) = ctx.send(&w, "post", &jowner, &jid, &TokenAmount::zero(), MinerMethod::SubmitWindowedPoSt as u64, Some(params))?;
+                sent += 1;
+                if a.ok() {
+                    okc += 1;
+                }
+                ctx.lines.push(format!("   PoSt m{} dl {} p {} @{} -> {}", j, dl, pidx, w.vm.epoch(), outcome(&a)));
+                if !a.ok() {
+                    // do not spin on a partition that cannot be proven (e.g. all faulty)
+                    let skip_to = (now_info.close).min(end);
+                    ctx.advance(&w, skip_to)?;
+                }
+            }
+            _ => {
+                ctx.advance(&w, end)?;
+            }
+        }
+    }
+    ctx.lines.push(format!("   … {} PoSts sent, {} accepted, now @{}", sent, okc, w.vm.epoch()));
+    Ok(())
+}
+
 fn run_sequence(cfg: &RunCfg, rep: &mut Report, seq: u64, max_steps: u64) -> (bool, Vec<String>) {
     let mut r = seq_rng(cfg.seed, seq);
     let w = World::new(false);
@@ -878,9 +992,15 @@ fn run_sequence(cfg: &RunCfg, rep: &mut Report, seq: u64, max_steps: u64) -> (bo
         lines: vec![],
         ticks: 0,
         oracle_runs: 0,
+        scans: 0,
         f1_as_violation: std::env::var("BA_F1_AS_VIOLATION").map(|v| v == "1").unwrap_or(false),
     };
-    let n_miners = if r.chance(2, 5) { 2 } else { 1 };
+    // "big" sequences: five 64 GiB miners that each onboard a little over the consensus minimum
+    // (160 sectors = 10 TiB), so that claims cross the minimum and the number of miners above it
+    // crosses the 4-miner threshold of the total-power rule
+    let big = seq % 12 == 5;
+    let n_miners = if big { 5 } else if r.chance(2, 5) { 2 } else { 1 };
+    let cap: u64 = if big { 168 } else { MAX_SECTORS };
     // one sequence in eight runs without the F1 compensation so that the known consequence stays visible
     let compensate_f1 = std::env::var("BA_NO_F1_COMP").map(|v| v != "1").unwrap_or(true) && seq % 8 != 7;
     let accts = w.create_accounts(n_miners, 7000 + seq, &TokenAmount::from_whole(1_000_000));
@@ -889,7 +1009,7 @@ fn run_sequence(cfg: &RunCfg, rep: &mut Report, seq: u64, max_steps: u64) -> (bo
     ctx.lines.push(format!("# seed {} seq {}: {} miner(s), start epoch {}", cfg.seed, seq, n_miners, start_epoch));
     let res: Result<(), Stop> = (|| {
         for i in 0..n_miners as usize {
-            let seal = if r.chance(1, 3) { RegisteredSealProof::StackedDRG64GiBV1P1 } else { RegisteredSealProof::StackedDRG32GiBV1P1 };
+            let seal = if big || r.chance(1, 3) { RegisteredSealProof::StackedDRG64GiBV1P1 } else { RegisteredSealProof::StackedDRG32GiBV1P1 };
             let post = seal.registered_window_post_proof().unwrap();
             let owner = accts[i].0;
             let params = CreateMinerParams {
@@ -932,9 +1052,59 @@ fn run_sequence(cfg: &RunCfg, rep: &mut Report, seq: u64, max_steps: u64) -> (bo
                 claim_nonzero: false,
                 claim_changes: 0,
                 claim_last: None,
+                cache: None,
             });
         }
         let mut snaps = ctx.check(&w, "after creation")?;
+        if big {
+            // scripted onboarding: one pre-commit batch and one prove-commit per miner, then PoSt
+            // every deadline for a bit more than a proving period
+            let mut counts = vec![];
+            for mi in 0..ctx.miners.len() {
+                let epoch = w.vm.epoch();
+                let (id, owner, seal, base) = (ctx.miners[mi].id, ctx.miners[mi].owner, ctx.miners[mi].seal, ctx.miners[mi].next_sno);
+                let count = 160 + r.below(4);
+                let exp = epoch + policy.min_sector_expiration + max_prove_commit_duration(&policy, seal).unwrap() + r.range(0, 60) * 2880;
+                let sectors: Vec<SectorPreCommitInfo> = (0..count)
+                    .map(|i| SectorPreCommitInfo {
+                        seal_proof: seal,
+                        sector_number: base + i,
+                        sealed_cid: make_sealed_cid(format!("sn: {}", base + i).as_bytes()),
+                        seal_rand_epoch: epoch - 1,
+                        deal_ids: vec![],
+                        expiration: exp,
+                        unsealed_cid: fil_actor_miner::CompactCommD::empty(),
+                    })
+                    .collect();
+                let (a, _) = ctx.send(&w, "precommit", &owner, &id, &TokenAmount::zero(), MinerMethod::PreCommitSectorBatch2 as u64, Some(PreCommitSectorBatchParams2 { sectors }))?;
+                ctx.lines.push(format!("setup @{} m{} precommit sectors {}..{} exp {} -> {}", epoch, mi, base, base + count - 1, exp, outcome(&a)));
+                ctx.miners[mi].next_sno = base + count;
+                counts.push((base, count));
+                ctx.check(&w, "setup precommit")?;
+            }
+            let to = w.vm.epoch() + policy.pre_commit_challenge_delay + 1 + r.range(0, 50);
+            ctx.advance(&w, to)?;
+            for mi in 0..ctx.miners.len() {
+                let (id, owner) = (ctx.miners[mi].id, ctx.miners[mi].owner);
+                let (base, count) = counts[mi];
+                let nums: Vec<u64> = (base..base + count).collect();
+                let params = ProveCommitSectors3Params {
+                    sector_activations: nums.iter().map(|n| SectorActivationManifest { sector_number: *n, pieces: vec![] }).collect(),
+                    sector_proofs: nums.iter().map(|n| RawBytes::new(vec![*n as u8; 4])).collect(),
+                    aggregate_proof: RawBytes::default(),
+                    aggregate_proof_type: None,
+                    require_activation_success: true,
+                    require_notification_success: false,
+                };
+                let (a, _) = ctx.send(&w, "prove-commit", &owner, &id, &TokenAmount::zero(), MinerMethod::ProveCommitSectors3 as u64, Some(params))?;
+                ctx.lines.push(format!("setup @{} m{} prove {} sectors -> {}", w.vm.epoch(), mi, count, outcome(&a)));
+                ctx.check(&w, "setup prove-commit")?;
+            }
+            let end = w.vm.epoch() + policy.wpost_proving_period + r.range(0, 10) * policy.wpost_challenge_window;
+            ctx.lines.push(format!("setup @{}: PoSt everything until {}", w.vm.epoch(), end));
+            post_period(&mut ctx, &w, end, true)?;
+            snaps = ctx.check(&w, "after setup")?;
+        }
         let steps = r.range(15, max_steps as i64) as u64;
         for step in 0..steps {
             let epoch = w.vm.epoch();
@@ -949,16 +1119,17 @@ fn run_sequence(cfg: &RunCfg, rep: &mut Report, seq: u64, max_steps: u64) -> (bo
             let with_faults: Vec<&PartSnap> = s.parts.iter().filter(|p| !p.faults.is_empty()).collect();
             let with_healthy: Vec<&PartSnap> = s.parts.iter().filter(|p| p.live().iter().any(|n| !p.faults.contains(n))).collect();
             let with_term: Vec<&PartSnap> = s.parts.iter().filter(|p| !p.terminated.is_empty()).collect();
+            let provable_any = s.parts.iter().any(|p| p.live().iter().any(|n| !p.faults.contains(n) || p.recoveries.contains(n)));
             let mutable = |p: &&PartSnap| deadline_is_mutable(&policy, new_deadline_info_from_offset_and_epoch(&policy, s.pps, epoch).period_start, p.dl, epoch);
             // weights of the step kinds in the current state
             let wts: Vec<(&str, u64)> = vec![
-                ("precommit", if n_sectors >= MAX_SECTORS { 1 } else if s.infos.is_empty() && s.precommits.is_empty() { 60 } else { 14 }),
+                ("precommit", if n_sectors >= cap { 1 } else if s.infos.is_empty() && s.precommits.is_empty() { 60 } else { 14 }),
                 ("prove", if s.precommits.is_empty() { 1 } else { 40 }),
-                ("post", if with_sectors.is_empty() { 0 } else { 26 }),
+                ("post", if with_sectors.is_empty() { 0 } else if provable_any { 26 } else { 3 }),
                 ("post-period", if with_sectors.is_empty() { 0 } else { 8 }),
                 ("miss", if with_sectors.is_empty() { 0 } else { 5 }),
                 ("fault", if with_healthy.is_empty() { 1 } else { 10 }),
-                ("recover", if with_faults.is_empty() { 1 } else { 14 }),
+                ("recover", if with_faults.is_empty() { 1 } else if provable_any { 14 } else { 30 }),
                 ("terminate", if with_sectors.is_empty() { 1 } else { 5 }),
                 ("extend", if with_sectors.is_empty() { 1 } else { 5 }),
                 ("compact", if with_term.is_empty() { 1 } else { 5 }),
@@ -989,7 +1160,7 @@ fn run_sequence(cfg: &RunCfg, rep: &mut Report, seq: u64, max_steps: u64) -> (bo
             };
             match kind {
                 "precommit" => {
-                    let count = r.range(1, 4.min((MAX_SECTORS.saturating_sub(n_sectors)).max(1) as i64)) as u64;
+                    let count = r.range(1, 4.min((cap.saturating_sub(n_sectors)).max(1) as i64)) as u64;
                     let flaw = if r.chance(1, 8) { r.below(3) + 1 } else { 0 };
                     let base = if flaw == 1 && !ctx.miners[mi].alloc_prev.is_empty() {
                         *ctx.miners[mi].alloc_prev.iter().next().unwrap() // re-used sector number
@@ -1097,83 +1268,11 @@ fn run_sequence(cfg: &RunCfg, rep: &mut Report, seq: u64, max_steps: u64) -> (bo
                     }
                 }
                 "post-period" => {
-                    // one proving period in which every partition with live sectors is proven
+                    // one proving period in which every partition with provable sectors is proven
                     let end = epoch + policy.wpost_proving_period;
-                    let (mut sent, mut okc) = (0, 0);
                     let heal = r.chance(3, 5);
                     ctx.lines.push(format!("{}: PoSt everything until {}{}", hdr, end, if heal { ", declaring every fault recovered as soon as its deadline allows" } else { "" }));
-                    loop {
-                        let now = w.vm.epoch();
-                        if now >= end {
-                            break;
-                        }
-                        let mut cur = ctx.check(&w, "post-period")?;
-                        if heal {
-                            let mut declared = false;
-                            for j in 0..cur.len() {
-                                let ps = new_deadline_info_from_offset_and_epoch(&policy, cur[j].pps, now).period_start;
-                                let decls: Vec<RecoveryDeclaration> = cur[j]
-                                    .parts
-                                    .iter()
-                                    .filter(|q| q.faults.iter().any(|n| !q.recoveries.contains(n)) && deadline_is_mutable(&policy, ps, q.dl, now))
-                                    .map(|q| RecoveryDeclaration { deadline: q.dl, partition: q.idx, sectors: bf(&q.faults.iter().filter(|n| !q.recoveries.contains(n)).copied().collect::<Vec<_>>()) })
-                                    .collect();
-                                if !decls.is_empty() {
-                                    let (jid, jowner) = (ctx.miners[j].id, ctx.miners[j].owner);
-                                    let desc: Vec<String> = decls.iter().map(|d| format!("dl{}/p{}", d.deadline, d.partition)).collect();
-                                    let (a, _) = ctx.send(&w, "declare-recovered", &jowner, &jid, &TokenAmount::zero(), MinerMethod::DeclareFaultsRecovered as u64, Some(DeclareFaultsRecoveredParams { recoveries: decls }))?;
-                                    ctx.lines.push(format!("   recover m{} {} @{} -> {}", j, desc.join(","), now, outcome(&a)));
-                                    declared = true;
-                                }
-                            }
-                            if declared {
-                                cur = ctx.check(&w, "post-period recovery declaration")?;
-                            }
-                        }
-                        // the next deadline (of any miner) holding sectors a PoSt can prove
-                        let mut best: Option<(ChainEpoch, usize, u64, u64, DeadlineInfo)> = None;
-                        for (j, sj) in cur.iter().enumerate() {
-                            for q in sj.parts.iter().filter(|q| q.live().iter().any(|n| !q.faults.contains(n) || q.recoveries.contains(n))) {
-                                let mut inf = next_open_of(&policy, sj.pps, q.dl, now);
-                                if inf.open <= now && sj.posted.get(&q.dl).map(|b| b.contains(&q.idx)).unwrap_or(false) {
-                                    inf = new_deadline_info_from_offset_and_epoch(&policy, sj.pps, inf.open + policy.wpost_proving_period);
-                                }
-                                let at = inf.open.max(now);
-                                if best.as_ref().map(|b| at < b.0).unwrap_or(true) {
-                                    best = Some((at, j, q.dl, q.idx, inf));
-                                }
-                            }
-                        }
-                        match best {
-                            Some((at, j, dl, pidx, _)) if at < end => {
-                                ctx.advance(&w, at)?;
-                                let now_info = ctx.dline(&w, j, w.vm.epoch());
-                                let (jid, jowner, jpost) = (ctx.miners[j].id, ctx.miners[j].owner, ctx.miners[j].post);
-                                let params = SubmitWindowedPoStParams {
-                                    deadline: dl,
-                                    partitions: vec![PoStPartition { index: pidx, skipped: BitField::new() }],
-                                    proofs: vec![PoStProof { post_proof: jpost, proof_bytes: vec![] }],
-                                    chain_commit_epoch: now_info.challenge,
-                                    chain_commit_rand: Randomness(TEST_VM_RAND_ARRAY.into()),
-                                };
-                                let (a, _) = ctx.send(&w, "post", &jowner, &jid, &TokenAmount::zero(), MinerMethod::SubmitWindowedPoSt as u64, Some(params))?;
-                                sent += 1;
-                                if a.ok() {
-                                    okc += 1;
-                                }
-                                ctx.lines.push(format!("   PoSt m{} dl {} p {} @{} -> {}", j, dl, pidx, w.vm.epoch(), outcome(&a)));
-                                if !a.ok() {
-                                    // do not spin on a partition that cannot be proven (e.g. all faulty)
-                                    let skip_to = (now_info.close).min(end);
-                                    ctx.advance(&w, skip_to)?;
-                                }
-                            }
-                            _ => {
-                                ctx.advance(&w, end)?;
-                            }
-                        }
-                    }
-                    ctx.lines.push(format!("   … {} PoSts sent, {} accepted, now @{}", sent, okc, w.vm.epoch()));
+                    post_period(&mut ctx, &w, end, heal)?;
                 }
                 "fault" | "recover" | "terminate" | "extend" => {
                     let cands = match kind {
@@ -1196,7 +1295,7 @@ fn run_sequence(cfg: &RunCfg, rep: &mut Report, seq: u64, max_steps: u64) -> (bo
                         (None, _) => (r.below(48), 0, vec![ctx.miners[mi].next_sno + 3]),
                         (Some(p), "fault") => {
                             let pool: Vec<u64> = if r.chance(5, 6) { p.live().into_iter().filter(|n| !p.faults.contains(n)).collect() } else { p.sectors.iter().copied().collect() };
-                            (p.dl, p.idx, pick_subset(&mut r, &pool, 3))
+                            (p.dl, p.idx, pick_subset(&mut r, &pool, if big { 6 } else { 3 }))
                         }
                         (Some(p), "recover") => {
                             let pool: Vec<u64> = if r.chance(5, 6) { p.faults.iter().copied().collect() } else { p.live().into_iter().collect() };
@@ -1239,6 +1338,18 @@ fn run_sequence(cfg: &RunCfg, rep: &mut Report, seq: u64, max_steps: u64) -> (bo
                 "compact" => {
                     let p = if with_term.is_empty() { choose(&mut r, &with_sectors) } else { choose(&mut r, &with_term) };
                     let dl = p.as_ref().map(|p| p.dl).unwrap_or_else(|| r.below(48));
+                    let ps = new_deadline_info_from_offset_and_epoch(&policy, s.pps, epoch).period_start;
+                    if !fil_actor_miner::deadline_available_for_compaction(&policy, ps, dl, epoch) && r.chance(3, 4) {
+                        // allowed only from the end of the dispute window after the deadline's last
+                        // challenge window until one window before it opens again
+                        let inf = next_open_of(&policy, s.pps, dl, epoch);
+                        let to = if inf.open <= epoch { inf.close } else { inf.close - policy.wpost_proving_period }.max(epoch - policy.wpost_proving_period)
+                            + policy.wpost_dispute_window
+                            + r.range(0, 700);
+                        let to = if to <= epoch { to + policy.wpost_proving_period } else { to };
+                        ctx.lines.push(format!("{}: deadline {} cannot be compacted now, advance to {}", hdr, dl, to));
+                        ctx.advance(&w, to)?;
+                    }
                     let (a, _) = ctx.send(&w, "compact", &owner, &id, &TokenAmount::zero(), MinerMethod::CompactPartitions as u64,
                         Some(CompactPartitionsParams { deadline: dl, partitions: bf(&[p.as_ref().map(|p| p.idx).unwrap_or(0)]) }))?;
                     ctx.lines.push(format!("{} dl {} -> {}", hdr, dl, outcome(&a)));
@@ -1285,6 +1396,7 @@ fn run_sequence(cfg: &RunCfg, rep: &mut Report, seq: u64, max_steps: u64) -> (bo
     }
     ctx.rep.branch_hist.entry("cron-ticks".into()).and_modify(|v| *v += ctx.ticks).or_insert(ctx.ticks);
     ctx.rep.branch_hist.entry("oracle-runs".into()).and_modify(|v| *v += ctx.oracle_runs).or_insert(ctx.oracle_runs);
+    ctx.rep.branch_hist.entry("miner-state-scans".into()).and_modify(|v| *v += ctx.scans).or_insert(ctx.scans);
     let nontrivial = ctx.miners.iter().any(|m| m.claim_nonzero && m.claim_changes >= 2);
     (nontrivial, ctx.lines)
 }
@@ -1294,7 +1406,7 @@ fn outcome(a: &Applied) -> String {
         "ok".into()
     } else {
         let mut m = a.message.clone();
-        m.truncate(110);
+        m.truncate(400);
         format!("{} ({})", exit_class(a.code), m)
     }
 }
